@@ -45,6 +45,15 @@ def wellformed(r):
     res = r['result']
     if isinstance(res, BaseException):
         return 'result is itself an error object (%s)' % _safe(res)
+    # a one-item array / one-cell range is its item, however deep it is nested: a result that is nothing but an error object
+    # wrapped in one-item lists is an error object
+    depth, seen = 0, set()
+    while isinstance(res, (list, tuple)) and len(res) == 1 and id(res) not in seen:
+        seen.add(id(res))
+        res = res[0]
+        depth += 1
+    if depth and isinstance(res, BaseException):
+        return 'result is an error object (%s) wrapped in %d one-item lists, the error entry is empty' % (_safe(res), depth)
     return None
 
 
@@ -648,6 +657,9 @@ class Actions(Sub):
 
 
 HUGE = [10 ** 9, 999999999999, -10 ** 9, 1e308, 2 ** 70, 0.5, 2, 'abc', '1e999999999']      # the last: TEXT spelling a huge number
+NESTED_SUBSTITUTE = '"1111111111"'
+for _ in range(6):
+    NESTED_SUBSTITUTE = 'SUBSTITUTE(%s,"1","1111111111")' % NESTED_SUBSTITUTE
 HUGE_LITERALS = ['9^999999999', '7*(9^99999999)', '2^1024', '99^999', '2^999999999^2', '10^400', '1/(9^99999999)', '(2^1023)*2', 'A' * 40000 + '1', '"' + '1' * 40000 + 'x"+1', '"' + '1' * 20000 + '.' + '2' * 20000 + 'e"*2',
                  'ABS("' + ' ' * 40000 + 'x")', '"' + '9' * 40000 + '"+1', '"' + '1-' * 20000 + '"+0', '"' + '1:' * 9000 + '"+0',
                  '999999999^999999999', '1^999999999', '0^999999999', 'SUM(9^999999999,1)', '-9^99999999', '9^99999999&"a"',
@@ -664,7 +676,16 @@ HUGE_LITERALS = ['9^999999999', '7*(9^99999999)', '2^1024', '99^999', '2^9999999
                  'F(' + '1\\' * 40000 + '1)',
                  # short formulas that spell whole numbers of a million bits (the cost of what is done with them is quadratic)
                  'BASE(2^1000000,2)', 'LEN(2^1000000*2^1000000*2^1000000*2^1000000)', 'QUOTIENT(3^660000*3^660000*3^660000,7^370000*7^370000*7^370000)',
-                 'MOD(3^660000*3^660000,7^370000)', '(2^900000*2^900000)&""', 'CEILING(3^660000,7^370000)', 'BASE(2^200000,2)']
+                 'MOD(3^660000*3^660000,7^370000)', '(2^900000*2^900000)&""', 'CEILING(3^660000,7^370000)', 'BASE(2^200000,2)',
+                 # ... or that multiply whole numbers at the cap inside ONE function call
+                 'BASE(PRODUCT(' + ','.join(['2^131071'] * 40) + '),3)', 'LEN(PRODUCT(' + ','.join(['3^80000'] * 300) + ')&"")',
+                 # empty slots: as linear as filled ones
+                 'SUM(' + ',' * 160000 + '1)', '{' + ';' * 160000 + '1}', 'F(' + '\\' * 160000 + '1)', '{' + ',' * 160000 + '1}',
+                 # short formulas that WRITE ten million digits and then read them as a number or try them as a date
+                 NESTED_SUBSTITUTE + '+0', 'YEAR(' + NESTED_SUBSTITUTE + ')', '-' + NESTED_SUBSTITUTE, 'ISNUMBER(' + NESTED_SUBSTITUTE + '*1)',
+                 # an error value however deep in one-item arrays is the error of the record
+                 '{' * 9 + 'NA()' + '}' * 9, '{' * 12 + '1/0' + '}' * 12, '{' * 300 + '1/0' + '}' * 300, '{' * 9 + '1/0' + '}' * 9 + '=1',
+                 'ISERROR(' + '{' * 40 + '1/0' + '}' * 40 + '+1)']
 
 
 class Blowups(Sub):
@@ -690,6 +711,8 @@ class Blowups(Sub):
         for fn in ('SUM', 'COUNT', 'MAX', 'AND', 'CONCATENATE', 'AVERAGE'):
             for rows in (20000, 50000):
                 yield ['wide', fn, rows]
+        # ... and PRODUCT over a long column of nine-digit numbers: the product is beyond every bound after a few thousand cells
+        yield ['wide', 'PRODUCT', 400000]
 
     def guarded(self, env, p, text, per_char=0):
         import signal
@@ -742,7 +765,7 @@ class Blowups(Sub):
             _, fn, rows = case
             env.nt()
             p = env.new_parser()
-            p.set_variable('xs', [[1] for _ in range(rows)])
+            p.set_variable('xs', [[123456789 if fn == 'PRODUCT' else 1] for _ in range(rows)])
             prob = self.guarded(env, p, '%s(xs)' % fn, per_char=30 * rows)
             if prob:
                 env._c01_stalls = getattr(env, '_c01_stalls', 0) + ('wall-clock' in prob)
